@@ -18,6 +18,7 @@ extern "C" int __real_close(int);
 namespace sim {
 
 Run R;
+std::function<void()> g_emitResultAndExit;
 
 std::string Ev::str() const {
   std::ostringstream o;
@@ -43,7 +44,21 @@ static void hashStr(const std::string& s) {
   }
 }
 
+void probe(const std::string& k, int64_t n) {
+  TsanIgnore ig;
+  R.probes[k] += n;
+}
+void fired(const std::string& k, int64_t n) {
+  TsanIgnore ig;
+  R.faults[k] += n;
+}
+void abstain(const std::string& k, int64_t n) {
+  TsanIgnore ig;
+  R.unconstrained[k] += n;
+}
+
 Ev& record(Ev e) {
+  TsanIgnore ig;
   e.seq = R.log.size();
   e.t = R.now_ns;
   e.tick = R.tick;
@@ -68,6 +83,7 @@ Ev& record(const std::string& kind, const std::string& who,
 }
 
 void violate(const std::string& clause, const std::string& detail) {
+  TsanIgnore ig;
   if (R.violations.size() < 8)
     R.violations.push_back({clause, detail});
   record("VIOLATION", "", clause, detail);
@@ -75,6 +91,7 @@ void violate(const std::string& clause, const std::string& detail) {
 
 static std::map<std::string, int> g_uuids;
 int uuidIndex(const std::string& uuid) {
+  TsanIgnore ig;
   if (uuid.empty())
     return -1;
   auto it = g_uuids.find(uuid);
